@@ -54,10 +54,11 @@ structure Rel (P : Nat) (s s' : State) : Prop where
     u ∈ s.queue ∧ ∃ g, getF s.objs u = some g ∧ PView g' g
   pbwd : ∀ k g', getF s'.objs k = some g' → ∃ g, getF s.objs k = some g ∧ g.prio = g'.prio
   pfwd : ∀ k g, getF s.objs k = some g → ∃ g', getF s'.objs k = some g' ∧ g'.prio = g.prio
+  ofwd : ∀ k g, getF s.objs k = some g → g.prio = P → ∃ g', getF s'.objs k = some g' ∧ PView g' g
 
 theorem Rel.refl (P : Nat) (s : State) : Rel P s s :=
   ⟨rfl, fun _ hu g hg _ => ⟨hu, g, hg, PView.refl g⟩, fun _ hu g hg _ => ⟨hu, g, hg, PView.refl g⟩,
-   fun _ g hg => ⟨g, hg, rfl⟩, fun _ g hg => ⟨g, hg, rfl⟩⟩
+   fun _ g hg => ⟨g, hg, rfl⟩, fun _ g hg => ⟨g, hg, rfl⟩, fun _ g hg _ => ⟨g, hg, PView.refl g⟩⟩
 
 theorem Rel.trans {P : Nat} {s0 s1 s2 : State} (h0 : Rel P s0 s1) (h1 : Rel P s1 s2) : Rel P s0 s2 where
   mode := h1.mode.trans h0.mode
@@ -77,12 +78,17 @@ theorem Rel.trans {P : Nat} {s0 s1 s2 : State} (h0 : Rel P s0 s1) (h1 : Rel P s1
     obtain ⟨g1, hg1, e1⟩ := h0.pfwd k g0 hg0
     obtain ⟨g2, hg2, e2⟩ := h1.pfwd k g1 hg1
     exact ⟨g2, hg2, e2.trans e1⟩
+  ofwd := fun k g0 hg0 hp => by
+    obtain ⟨g1, hg1, v1⟩ := h0.ofwd k g0 hg0 hp
+    obtain ⟨g2, hg2, v2⟩ := h1.ofwd k g1 hg1 (v1.prio.trans hp)
+    exact ⟨g2, hg2, v2.trans v1⟩
 
 theorem Rel.of_same {P : Nat} {s s' : State} (ho : s'.objs = s.objs) (hq : s'.queue = s.queue) (hc : s'.cfg = s.cfg) :
     Rel P s s' :=
   ⟨by rw [hc], fun _ hu g hg _ => ⟨by rw [hq]; exact hu, g, by rw [ho]; exact hg, PView.refl g⟩,
    fun _ hu g hg _ => ⟨by rw [← hq]; exact hu, g, by rw [← ho]; exact hg, PView.refl g⟩,
-   fun _ g hg => ⟨g, by rw [← ho]; exact hg, rfl⟩, fun _ g hg => ⟨g, by rw [ho]; exact hg, rfl⟩⟩
+   fun _ g hg => ⟨g, by rw [← ho]; exact hg, rfl⟩, fun _ g hg => ⟨g, by rw [ho]; exact hg, rfl⟩,
+   fun _ g hg _ => ⟨g, by rw [ho]; exact hg, PView.refl g⟩⟩
 
 theorem Rel.publish (P : Nat) (s : State) (now : Nat) : Rel P s (publish s now) where
   mode := rfl
@@ -102,6 +108,7 @@ theorem Rel.publish (P : Nat) (s : State) (now : Nat) : Rel P s (publish s now) 
       rw [hg] at hg'; simp only [Option.map_some, Option.some.injEq] at hg'
       exact ⟨g, rfl, by rw [← hg']; exact (pubMark_prio _ g).symm⟩
   pfwd := fun k g hg => ⟨pubMark s.files g, by rw [publish_getF_objs, hg]; rfl, pubMark_prio _ g⟩
+  ofwd := fun k g hg _ => ⟨pubMark s.files g, by rw [publish_getF_objs, hg]; rfl, pubMark_pview _ g⟩
 
 theorem Rel.publishTry (P : Nat) (s : State) (now : Nat) : Rel P s (publishTry s now) :=
   publishTry_elim (P := fun x => Rel P s x) s now (Rel.publish P s now) (Rel.refl P s)
@@ -118,7 +125,7 @@ theorem Rel.upd {P : Nat} {s s' : State} (k : Nat) (gf : FileDesc → FileDesc)
     (hqf : ∀ u ∈ s.queue, u ≠ k → u ∈ s'.queue) (hqb : ∀ u ∈ s'.queue, u ≠ k → u ∈ s.queue) : Rel P s s' := by
   have hget : ∀ u, getF s'.objs u = if u = k then (getF s.objs u).map gf else getF s.objs u := by
     intro u; rw [ho]; exact getF_updF s.objs k u gf (fun x => (hg x).1)
-  refine ⟨by rw [hc], ?_, ?_, ?_, ?_⟩
+  refine ⟨by rw [hc], ?_, ?_, ?_, ?_, ?_⟩
   · intro u hu g hgu hp
     have hne : u ≠ k := fun e => hk g (e ▸ hgu) hp
     exact ⟨hqf u hu hne, g, by rw [hget, if_neg hne]; exact hgu, PView.refl g⟩
@@ -147,6 +154,9 @@ theorem Rel.upd {P : Nat} {s s' : State} (k : Nat) (gf : FileDesc → FileDesc)
     by_cases hne : u = k
     · exact ⟨gf g, by rw [hget, if_pos hne, hgu]; rfl, (hg g).2⟩
     · exact ⟨g, by rw [hget, if_neg hne]; exact hgu, rfl⟩
+  · intro u g hgu hp
+    have hne : u ≠ k := fun e => hk g (e ▸ hgu) hp
+    exact ⟨g, by rw [hget, if_neg hne]; exact hgu, PView.refl g⟩
 
 /-- some waiting object of priority `P` is ready, and no waiting object of priority `P` carries a stale pacing
     timestamp -/
@@ -418,9 +428,21 @@ theorem HeldOk.of_rel {P : Nat} {q : QSess} {s s' : State} (hr : Rel P s s') (h 
   intro hmem
   exact hnq (hr.bwd c0.key hmem g' hg' (ep.trans hp)).1
 
+theorem Avail.of_rel {P now : Nat} {q : QSess} {s s' : State} {curj : Option Cur} {j : Nat} (hr : Rel P s s')
+    (hq : HeldOk P q s) (hjs : q.slots[j]? = some curj) (h : Avail s now curj) : Avail s' now curj := by
+  rcases h with h | ⟨c, g, h1, h2, h3, h4⟩
+  · exact Or.inl h
+  · subst h1
+    obtain ⟨_, g0, hg0, hp⟩ := hq j c hjs
+    rw [h2] at hg0; cases hg0
+    obtain ⟨g', hg', v⟩ := hr.ofwd c.key g h2 hp
+    refine Or.inr ⟨c, g', rfl, hg', by rw [gateBlocked_congr v.info]; exact h3, ?_⟩
+    have : g'.nPk = g.nPk := by unfold FileDesc.nPk; rw [v.nSym]
+    rw [this]; exact h4
+
 theorem readQueues_wait (now : Nat) (ticks : List (Nat × Nat)) (q : QSess) (post : List QSess) (j : Nat)
-    (hidx : q.index < q.slots.length) (hfree : q.slots[j]? = some none) :
-    ∀ (pre : List QSess) (s : State), WRP q.prio now s → PreOk q.prio pre s → HeldOk q.prio q s →
+    (curj : Option Cur) (hidx : q.index < q.slots.length) (hfree : q.slots[j]? = some curj) :
+    ∀ (pre : List QSess) (s : State), WRP q.prio now s → PreOk q.prio pre s → HeldOk q.prio q s → Avail s now curj →
     (∀ p t i b, (readQueues s (pre ++ q :: post) now ticks).2.2 = Out.pkt p t i b →
       p ∈ (pre ++ [q]).map (fun x => x.prio)) ∧
     ((readQueues s (pre ++ q :: post) now ticks).2.2 = Out.none →
@@ -432,11 +454,11 @@ theorem readQueues_wait (now : Nat) (ticks : List (Nat × Nat)) (q : QSess) (pos
   intro pre
   induction pre with
   | nil =>
-    intro s h _ hq
+    intro s h _ hq hav
     obtain ⟨t, f, hw⟩ := h.ready
     simp only [List.nil_append]
     unfold readQueues
-    have hr := readQueue_wait now ticks t f j q.slots.length hj q.slots.length s q hw rfl hidx hfree
+    have hr := readQueue_wait now ticks t f j q.slots.length hj q.slots.length s q curj hw rfl hidx hfree hav
       (fun i c0 hi => (hq i c0 hi).1) (rrDist_lt _ _ _ hidx hj)
     generalize readQueue q.slots.length s q now ticks = r at hr
     obtain ⟨s', q', out⟩ := r
@@ -452,7 +474,7 @@ theorem readQueues_wait (now : Nat) (ticks : List (Nat × Nat)) (q : QSess) (pos
       simp only [] at hp ⊢
       exact ⟨fun p t i b e => (by rw [hp.1] at e; cases e), fun _ => hp.2⟩
   | cons q0 pre' ih =>
-    intro s h hpre hq
+    intro s h hpre hq hav
     simp only [List.cons_append]
     unfold readQueues
     have hr := readQueue_otherprio (P := q.prio) now ticks q0.slots.length s q0 (hpre q0 List.mem_cons_self).1
@@ -466,6 +488,7 @@ theorem readQueues_wait (now : Nat) (ticks : List (Nat × Nat)) (q : QSess) (pos
       simp only []
       have h2 := ih s' (h.of_rel h1)
         (PreOk.of_rel h1 (fun q1 hq1 => hpre q1 (List.mem_cons_of_mem _ hq1))) (hq.of_rel h1)
+        (Avail.of_rel h1 hq hfree hav)
       generalize readQueues s' (pre' ++ q :: post) now ticks = r2 at h2
       obtain ⟨s2, rest2, out2⟩ := r2
       simp only [] at h2 ⊢
@@ -499,7 +522,7 @@ theorem read_wait (cfg : Cfg) (tbl : List Nat) (ops : List Op) (pre post : List 
     (now : Nat) (ticks : List (Nat × Nat))
     (hsorted : (cfg.queues.map (fun x => x.1)).Pairwise (fun a b => a < b))
     (hsess : (run (init cfg tbl) ops).sessions = pre ++ q :: post)
-    (hfree : q.slots[j]? = some none)
+    (curj : Option Cur) (hfree : q.slots[j]? = some curj) (hav : Avail (run (init cfg tbl) ops) now curj)
     (hfind : findNext (run (init cfg tbl) ops) q.prio now (run (init cfg tbl) ops).queue = some t)
     (hstale : ∀ u ∈ (run (init cfg tbl) ops).queue, ∀ g, getF (run (init cfg tbl) ops).objs u = some g →
       g.prio = q.prio → wantsTick g = false → g.info.nextTs = none) :
@@ -562,7 +585,8 @@ theorem read_wait (cfg : Cfg) (tbl : List Nat) (ops : List Op) (pre post : List 
     unfold readMid
     simp only []
     rw [hSsess]
-    have hdue := readQueues_wait now ticks q post j hqidx hfree pre S (hwrp.of_rel hrS) (hpre.of_rel hrS) (hq.of_rel hrS)
+    have hdue := readQueues_wait now ticks q post j curj hqidx hfree pre S (hwrp.of_rel hrS) (hpre.of_rel hrS) (hq.of_rel hrS)
+      (Avail.of_rel hrS hq hfree hav)
     have hwq2 := readQueues_inv Wf.closed (pre ++ q :: post) S now ticks []
       (by simpa [heldOf, hsess] using hw1q) hSq
     generalize readQueues S (pre ++ q :: post) now ticks = r2 at hdue hwq2
